@@ -334,3 +334,30 @@ def linform(fn, fx, o, depth=0):
                 return {s_: c * cb for s_, c in a.items()}
         return None
     return None
+
+
+def local_used(fn, l):
+    """nodes that read local l (operand of an rvalue, call argument, switch operand); drops / storage markers do not count"""
+    def mentions(x):
+        if isinstance(x, dict):
+            for k in ("m", "c", "p"):
+                v = x.get(k)
+                if isinstance(v, list) and v and v[0] == l:
+                    return True
+            return any(mentions(v) for v in x.values())
+        if isinstance(x, list):
+            return any(mentions(v) for v in x)
+        return False
+    out = []
+    for node in fn.all_nodes():
+        if fn.is_term(node):
+            t = fn.term(node[0])
+            if t["k"] == "call" and mentions(t.get("args", [])):
+                out.append(node)
+            elif t["k"] == "switch" and mentions(t.get("o")):
+                out.append(node)
+        else:
+            st = fn.stmt(node)
+            if "rv" in st and mentions(st["rv"]):
+                out.append(node)
+    return out
